@@ -8,7 +8,7 @@ use automerge::{AutoCommit, Automerge, Change, ChangeHash, ReadDoc, TextEncoding
 use serde_json::json;
 use std::collections::{BTreeSet, HashSet};
 
-const HEADER: &str = "From AM Require Import Base.Prelude Base.Order Crdt.Types Crdt.Interp Crdt.Doc Exec.HistExec.\nLocal Open Scope N_scope.\n";
+const HEADER: &str = "From AM Require Import Base.Prelude Base.Order Crdt.Types Crdt.Interp Crdt.Doc Crdt.Commit Exec.HistExec.\nLocal Open Scope N_scope.\n";
 
 fn edits(doc: &mut AutoCommit, rng: &mut Rng, n: u64, cfg: &GenCfg, log: &mut Vec<String>, who: &str) {
     for _ in 0..n {
@@ -159,6 +159,77 @@ pub fn run(rng: &mut Rng, tier: &str, out: &str) -> Report {
                     json!({"kind": "conflict-deliveries", "props": ["C38", "C05", "C06"], "universe": ui, "schedule": si, "log": log, "batches": batches})));
             }
             rep.count("schedules");
+        }
+        // ---------- a local commit against a HELD conflicting branch of its own actor (C38) ----------
+        // a stale replica reusing actor `a` made (a, k) on top of another actor's change t; the document gets
+        // (a, k) before t, so it is held; then the document commits its own (a, k): the held branch must go
+        {
+            use automerge::transaction::Transactable;
+            let mut stale = base.fork().with_actor(a.clone());
+            let mut other = base.fork().with_actor(gen::actor(rng, 5));
+            let _ = other.put(automerge::ROOT, "o", ui as i64);
+            other.commit();
+            let base_heads = base.get_heads();
+            let t: Vec<Change> = other.get_changes(&base_heads);
+            if stale.merge(&mut other).is_ok() {
+                for k in 0..rng.range(1, 2) {
+                    let _ = stale.put(automerge::ROOT, "s", k as i64);
+                    edits(&mut stale, rng, 1, &cfg, &mut log, "stale");
+                    stale.commit();
+                }
+                let held: Vec<Change> = stale.get_changes(&base_heads).into_iter().filter(|c| c.actor_id() == &a).collect();
+                let mut d = base.fork().with_actor(a.clone());
+                let appl: Vec<Change> = d.get_changes(&[]);
+                let r = guard(|| d.apply_changes(held.clone()));
+                let held_ok = matches!(r, Ok(Ok(()))) && !d.get_missing_deps(&[]).is_empty();
+                if held_ok {
+                    let _ = d.put(automerge::ROOT, "local", 1i64);
+                    match guard(|| d.commit()) {
+                        Ok(Some(h)) => {
+                            let c = d.get_change_by_hash(&h).unwrap();
+                            let missing_after = sorted(d.get_missing_deps(&[]));
+                            if !missing_after.is_empty() {
+                                rep.fail(&["C38"], "conf|commit-kept-conflicting-branch",
+                                    "a local commit claimed (actor, seq) but held changes of the same actor with that or a later seq stayed in the queue",
+                                    json!({"universe": ui, "log": log, "held": held.iter().map(|c| (c.seq(), hex(&c.hash().0))).collect::<Vec<_>>(), "local_seq": c.seq()}));
+                            }
+                            cases.push((
+                                format!("chk_commit_prune {} {} {} {} {} {}", coq_list(&appl.iter().map(coq_change).collect::<Vec<_>>()),
+                                    coq_list(&held.iter().map(coq_change).collect::<Vec<_>>()), coq_actor(&a), coq_hash(&h), c.seq(), coq_hashes(&missing_after)),
+                                json!({"kind": "commit-prune", "props": ["C38"], "universe": ui, "log": log}),
+                            ));
+                            // the missing dependency arrives, then the discarded branch is delivered again
+                            let mut ok = matches!(guard(|| d.apply_changes(t.clone())), Ok(Ok(())));
+                            let again = guard(|| d.apply_changes(held.clone()));
+                            if again.is_err() {
+                                ok = false;
+                            }
+                            let consistent = guard(|| {
+                                let mut pairs = HashSet::new();
+                                let mut good = true;
+                                for c in d.get_changes(&[]) {
+                                    if !pairs.insert((c.actor_id().clone(), c.seq())) {
+                                        good = false;
+                                    }
+                                }
+                                let bytes = d.save();
+                                good && Automerge::load(&bytes).is_ok()
+                            });
+                            if !matches!(consistent, Ok(true)) {
+                                ok = false;
+                            }
+                            if !ok {
+                                rep.fail(&["C38", "C06"], "conf|commit-vs-held-branch-inconsistent",
+                                    "after a local commit against a held conflicting branch the document panicked, holds a duplicate (actor, seq) or cannot be reloaded",
+                                    json!({"universe": ui, "log": log}));
+                            }
+                            rep.count("commit_vs_held_branch");
+                        }
+                        Ok(None) => {}
+                        Err(p) => rep.fail(&["C38", "C37"], &format!("panic|commit|{}", p.signature()), &format!("commit panicked: {}", p.message), json!({"universe": ui, "log": log})),
+                    }
+                }
+            }
         }
         if saw_error {
             rep.count("universes_with_rejections");
